@@ -246,7 +246,8 @@ def run_generated(sc, ctx, out, els, P, cell, pname, d):
     if mode == 'find+replace':
         argv += ['--replace', rpath]; kw['repl'] = rpath
     vi = sc['vi']; opts = sc['opts']
-    val = lambda o: VALUES[o][vi % len(VALUES[o])]
+    # --mic: 4.5 (2*mic is exactly the cell length) on its own, 5.0 (which needs copies, so that the order of --replicate and --mic matters) next to --replicate
+    val = lambda o: VALUES[o][(vi + (1 if o == 'mic' and 'replicate' in opts else 0)) % len(VALUES[o])]
     expect_kw = dict(atol=5e-2)
     if 'atol' in opts:
         argv += ['--atol', str(val('atol'))]; kw['atol'] = val('atol'); expect_kw['atol'] = val('atol')
